@@ -14,8 +14,8 @@ import (
 type Val struct {
 	T     string
 	Ty    types.Type
-	Tuple []Val    // for tuple-typed SSA values
-	Const *big.Int // untyped integer constant (contract literals)
+	Tuple []Val      // for tuple-typed SSA values
+	Const *big.Int   // untyped integer constant (contract literals)
 	Type_ types.Type // for type expressions in contracts
 }
 
@@ -29,22 +29,22 @@ const refDecl = `(declare-datatypes ((Ref 0)) (((nil) (obj (objid Int)) (loc (lo
 
 // Smt holds everything that makes up the text of the queries of one function.
 type Smt struct {
-	intMode  bool
-	prelude  []string // sort and datatype declarations
-	decls    []string // declare-const / define-fun in program order
-	structs  map[string]string // struct type key -> sort name
-	structTy map[string]*types.Struct
-	nameCnt  map[string]int
-	strConst map[string]string
-	boxed    map[string]bool
-	tags     map[string]int
-	tagTypes []types.Type
-	ufs      map[string]bool
-	witFns   map[string]string // witness functions of existentials nested in universals
-	fieldIDs map[string]int
-	eng      *Engine
-	defCache map[string]string
-	onDerive func(newName string, from []string)
+	intMode     bool
+	prelude     []string          // sort and datatype declarations
+	decls       []string          // declare-const / define-fun in program order
+	structs     map[string]string // struct type key -> sort name
+	structTy    map[string]*types.Struct
+	nameCnt     map[string]int
+	strConst    map[string]string
+	boxed       map[string]bool
+	tags        map[string]int
+	tagTypes    []types.Type
+	ufs         map[string]bool
+	witFns      map[string]string // witness functions of existentials nested in universals
+	fieldIDs    map[string]int
+	eng         *Engine
+	defCache    map[string]string
+	onDerive    func(newName string, from []string)
 	onFreshHeap func(name, ac string)
 }
 
@@ -395,15 +395,15 @@ func (s *Smt) boxFn(sortName string) (string, string) {
 
 // Heap is a persistent map from cell-sort key to the SMT array holding all cells of that sort.
 type Heap struct {
-	id      int
-	over    map[string]string
-	next    *Heap
-	merge   []*Heap  // merge node parents
-	mconds  []string // merge edge conditions (same length as merge)
-	root    bool
-	smt     *Smt
-	ac      string // allocation counter when this (root) heap state came into being
-	asOf    string // (state right after a call) allocation counter at that moment: every pointer in memory refers to an older object
+	id     int
+	over   map[string]string
+	next   *Heap
+	merge  []*Heap  // merge node parents
+	mconds []string // merge edge conditions (same length as merge)
+	root   bool
+	smt    *Smt
+	ac     string // allocation counter when this (root) heap state came into being
+	asOf   string // (state right after a call) allocation counter at that moment: every pointer in memory refers to an older object
 }
 
 var heapSeq int
